@@ -263,8 +263,8 @@ struct Sys {
     log: Vec<LogEntry>,
     hist: Vec<Ev>,
     new_objs: usize,
-    /// Canonical JSON of the object after the last step.
-    view: Value,
+    /// Canonical text of the object after the last step.
+    view: String,
 }
 
 enum AnyAction {
@@ -303,7 +303,7 @@ fn is_delegate(by: u8, idv: u8) -> bool {
 
 impl Sys {
     fn new() -> Sys {
-        Sys { obj: Obj::Unset, objs: vec![], log: vec![], hist: vec![], new_objs: 0, view: Value::Null }
+        Sys { obj: Obj::Unset, objs: vec![], log: vec![], hist: vec![], new_objs: 0, view: String::new() }
     }
 
     fn kind(&self) -> Option<Kind> {
@@ -322,8 +322,18 @@ impl Sys {
         v
     }
 
-    fn render(&self, extra: Option<Oid>) -> Value {
+    fn render(&self, extra: Option<Oid>) -> String {
         let names = self.names(extra);
+        match &self.obj {
+            Obj::Unset => String::new(),
+            Obj::Issue(i) => fast_view(i, &names),
+            Obj::Patch(p) => fast_view(p, &names),
+        }
+    }
+
+    /// Slow, fully normalised form (map keys sorted) for comparison with a real repository.
+    fn normal_form(&self) -> Value {
+        let names = self.names(None);
         match &self.obj {
             Obj::Unset => Value::Null,
             Obj::Issue(i) => canon_json(i, &names, &["timeline"], &[]),
@@ -415,7 +425,7 @@ impl Sys {
         let mut made = false;
         let view = self.render(Some(op_id));
         if let Some(kind) = act.creates() {
-            if view.to_string().contains("#new") {
+            if view.contains("#new") {
                 self.objs.push(ObjInfo { id: op_id, kind, author: by, within: self.within_of(act) });
                 made = true;
             }
@@ -463,16 +473,44 @@ impl Sys {
         }
     }
 
-    /// The part of the state an action of this kind is about.
-    fn projection(view: &Value, act: Act) -> (&'static str, Value) {
-        let g = |k: &str| view.get(k).cloned().unwrap_or(Value::Null);
+    /// The part of the state an action of this kind is about (read through the accessors; for
+    /// comment / review edits and redactions: the whole object, timelines excluded).
+    fn projection(&self, act: Act) -> (&'static str, String) {
+        let small = |what: &'static str| -> String {
+            match &self.obj {
+                Obj::Unset => String::new(),
+                Obj::Issue(i) => match what {
+                    "assignees" => format!("{:?}", i.assignees().collect::<Vec<_>>()),
+                    "labels" => format!("{:?}", i.labels().collect::<Vec<_>>()),
+                    "title" => i.title().to_string(),
+                    _ => format!("{:?}", i.state()),
+                },
+                Obj::Patch(p) => {
+                    let state = || match p.state() {
+                        patch::State::Open { conflicts } => {
+                            let mut c: Vec<String> = conflicts.iter().map(|(r, o)| format!("{r}@{o}")).collect();
+                            c.sort();
+                            format!("Open{c:?}")
+                        }
+                        other => format!("{other:?}"),
+                    };
+                    match what {
+                        "assignees" => format!("{:?}", p.assignees().collect::<Vec<_>>()),
+                        "labels" => format!("{:?}", p.labels().collect::<Vec<_>>()),
+                        "title" => p.title().to_string(),
+                        "merges" => format!("{:?} {}", p.merges().collect::<Vec<_>>(), state()),
+                        _ => state(),
+                    }
+                }
+            }
+        };
         match act {
-            Act::Assign(_) => ("assignees", g("assignees")),
-            Act::Label(_) => ("labels", g("labels")),
-            Act::Merge(..) => ("merges", json!([g("merges"), g("state")])),
-            Act::Title(_) => ("title", g("title")),
-            Act::IssueState(_) | Act::Lifecycle(_) => ("state", g("state")),
-            _ => ("comments-and-reviews", json!([g("thread"), g("revisions"), g("reviews")])),
+            Act::Assign(_) => ("assignees", small("assignees")),
+            Act::Label(_) => ("labels", small("labels")),
+            Act::Merge(..) => ("merges", small("merges")),
+            Act::Title(_) => ("title", small("title")),
+            Act::IssueState(_) | Act::Lifecycle(_) => ("state", small("state")),
+            _ => ("comments-and-reviews", self.view.clone()),
         }
     }
 
@@ -571,7 +609,7 @@ impl Sys {
         for ev in hist {
             let _ = mem.step(ev);
         }
-        let want = mem.view.clone();
+        let want = mem.normal_form();
         with_wrepo(|repo| {
             let type_name = match kind {
                 Kind::Issue => issue::TYPENAME.clone(),
@@ -628,6 +666,14 @@ fn mem_obj_start(kind: Kind) -> Obj {
             let op = Op::new(syn_oid(0), NonEmpty::from_vec(acts).unwrap(), key, Timestamp::from_secs(T0), Some(f.idc[0]), Manifest::new(patch::TYPENAME.clone(), cob::Version::default()));
             Obj::Patch(patch::Patch::from_root(op, &f.env).expect("patch root"))
         }
+    }
+}
+
+fn clip(s: &str) -> String {
+    if s.len() > 160 {
+        format!("{}…", s.chars().take(160).collect::<String>())
+    } else {
+        s.to_string()
     }
 }
 
@@ -694,23 +740,27 @@ impl System for Sys {
             Ev::Act { by, idv, act } => {
                 let auth = self.authorised(*by, *idv, *act);
                 let role = self.role(*by, *idv, *act);
-                let (what, before) = Sys::projection(&self.view, *act);
+                let regulated = auth.is_some();
+                let (what, before) = if regulated { self.projection(*act) } else { ("", String::new()) };
                 let res = self.apply(*by, *idv, *act);
                 if act.creates().is_some() && self.log.last().map(|l| l.made).unwrap_or(false) {
                     self.new_objs += 1;
                 }
-                let (_, after) = Sys::projection(&self.view, *act);
+                let (_, after) = if regulated { self.projection(*act) } else { ("", String::new()) };
+                let changed = if regulated { before != after } else { false };
                 let mut vs = vec![];
-                if auth == Some(false) && before != after {
+                if auth == Some(false) && changed {
                     vs.push(Violation::new(
                         format!("C07/{:?}/{}-changed-by-unauthorised/{}-as-{role}", self.kind().unwrap(), what, act.name()),
                         format!(
-                            "{} ({role}, referring to identity v{}) is not authorised for `{}` by the statement's role table, yet the {what} changed: {before} -> {after} (op result: {res:?})",
+                            "{} ({role}, referring to identity v{}) is not authorised for `{}` by the statement's role table, yet the {what} changed (op result: {res:?}): {} -> {}",
                             ACTORS[*by as usize],
                             idv + 1,
-                            act.name()
+                            act.name(),
+                            clip(&before),
+                            clip(&after)
                         ),
-                        json!({"after": self.view}),
+                        json!({"before": before, "after": after}),
                     ));
                 }
                 let auth_s = match auth {
@@ -719,7 +769,7 @@ impl System for Sys {
                     None => "unregulated",
                 };
                 let r = match &res {
-                    Ok(()) => if before != after { "ok+changed".to_string() } else { "ok+same".to_string() },
+                    Ok(()) => if !regulated { "ok".to_string() } else if changed { "ok+changed".to_string() } else { "ok+same".to_string() },
                     Err(e) => format!("err:{e}"),
                 };
                 StepOut { violations: vs, outcome: format!("{:?}/{}/{role}/{auth_s}:{r}", self.kind().unwrap(), act.name()), dead: false }
@@ -736,7 +786,7 @@ impl System for Sys {
     }
 
     fn canon(&self) -> Vec<u8> {
-        let mut s = self.view.to_string();
+        let mut s = self.view.clone();
         for o in &self.objs {
             s.push_str(&format!("|{:?},{},{:?}", o.kind, o.author, o.within));
         }
